@@ -28,7 +28,7 @@ M = {
     "setup_cmd": "true",
     "hooks": {
         "guard": "H3_VERIF_HOOKS",
-        "enable": "./check compiles src/h3lib/lib/*.c directly from /repo's working tree and passes -DH3_VERIF_HOOKS to every monitor build except the TSan one",
+        "enable": "./check compiles src/h3lib/lib/*.c directly from /repo's working tree and passes -DH3_VERIF_HOOKS to every monitor build except the TSan and write-trap (shared object) ones; the hooks are observation-only table look-up points (src/h3lib/include/h3VerifHooks.h: H3_VERIF_HIT -> h3VerifHit(table,row,col), implemented by vf/vf_kit.c)",
         "baseline_off_cmd": "/verif/baseline_off.sh",
         "source_commits": HOOK_COMMITS,
         "add_only": True,
